@@ -476,3 +476,17 @@ func verifC02NativeNested() {
 	verifCheckf(r1 == "", "file-checked-with-another-repository's-configuration", r1)
 	verifCheckf(r1 == r2 && r3 == "", "result-depends-on-how-many-times-the-run-is-repeated", r2+" / "+r3)
 }
+
+// verifPrintedWithSource: what the real PrettyPrint writes for one diagnostic with its source (colours off).
+func verifPrintedWithSource(e *Error, src []byte) []string {
+	old := color.NoColor
+	color.NoColor = true
+	defer func() { color.NoColor = old }()
+	var buf bytes.Buffer
+	e.PrettyPrint(&buf, src)
+	out := strings.Split(buf.String(), "\n")
+	if len(out) > 0 && out[len(out)-1] == "" {
+		out = out[:len(out)-1]
+	}
+	return out
+}
